@@ -1565,6 +1565,7 @@ func (p *pipe) DoCache(ctx context.Context, cmd Cacheable, ttl time.Duration) Re
 	if v, entry := p.cache.Flight(ck, cc, ttl, now); v.typ != 0 {
 		return NewResult(v, nil)
 	} else if entry != nil {
+		vhook("cache.wait", p, 0, 0)
 		return NewResult(entry.Wait(ctx))
 	}
 	if cmds.IsStaticTTL(Completed(cmd)) {
@@ -1575,6 +1576,7 @@ func (p *pipe) DoCache(ctx context.Context, cmd Cacheable, ttl time.Duration) Re
 		// Transport errors only — wire replies are handled by the read
 		// loop. Checking .err (not .Error()) avoids double-touching.
 		if resp.s[1].err != nil {
+			vhook("cache.cancel", p, 0, 0)
 			p.cache.Cancel(ck, cc, resp.s[1].err)
 		}
 		return resp.s[1]
@@ -1598,6 +1600,7 @@ func (p *pipe) DoCache(ctx context.Context, cmd Cacheable, ttl time.Duration) Re
 				}
 			}
 		}
+		vhook("cache.cancel", p, 0, 0)
 		p.cache.Cancel(ck, cc, err)
 		return NewErrorResult(err)
 	}
@@ -1668,6 +1671,7 @@ func (p *pipe) doCacheMGet(ctx context.Context, cmd Cacheable, ttl time.Duration
 					}
 				}
 			}
+			vhook("cache.cancel", p, 0, 0)
 			for _, key := range rewritten.Commands()[1 : keys+1] {
 				p.cache.Cancel(key, mgetcc, err)
 			}
@@ -1691,6 +1695,7 @@ func (p *pipe) doCacheMGet(ctx context.Context, cmd Cacheable, ttl time.Duration
 		result.val.setValues(make([]RedisMessage, keys))
 	}
 	for i, entry := range entries.e {
+		vhook("cache.wait", p, i, 0)
 		v, err := entry.Wait(ctx)
 		if err != nil {
 			return NewErrorResult(err)
@@ -1793,6 +1798,7 @@ func (p *pipe) DoMultiCache(ctx context.Context, multi ...CacheableTTL) *redisre
 						}
 					}
 					ck, cc := cmds.CacheKey(Cacheable(missing[i-1]))
+					vhook("cache.cancel", p, i, 0)
 					p.cache.Cancel(ck, cc, err)
 				}
 			}
@@ -1803,6 +1809,7 @@ func (p *pipe) DoMultiCache(ctx context.Context, multi ...CacheableTTL) *redisre
 			for i := offset; i < len(resp.s); i += stride {
 				if resp.s[i].err != nil {
 					ck, cc := cmds.CacheKey(Cacheable(missing[i]))
+					vhook("cache.cancel", p, i, 0)
 					p.cache.Cancel(ck, cc, resp.s[i].err)
 				}
 			}
@@ -1810,6 +1817,7 @@ func (p *pipe) DoMultiCache(ctx context.Context, multi ...CacheableTTL) *redisre
 	}
 
 	for i, entry := range entries.e {
+		vhook("cache.wait", p, i, 0)
 		results.s[i] = NewResult(entry.Wait(ctx))
 	}
 
